@@ -8,7 +8,6 @@ import (
 	"math/rand/v2"
 	"net/netip"
 	"strings"
-	"sync"
 	"time"
 	"verifharness/env"
 	"verifharness/vmesh"
@@ -662,11 +661,12 @@ func meshTraversalLive(res *core.Result, r *rand.Rand, t *vmesh.Topology, labels
 		if err := from.Inst.SwitchV.ForwardByLabel(f, first); err != nil {
 			return 0, nil, 0, false, false
 		}
+		// the frame shows up on the first link at once, or a moment later if the switch hands it to a worker of
+		// its own (bounded wait, as for every later hop in DeliverLive)
 		var p *vmesh.Packet
-		for i, q := range ms.InFlight {
-			if vmesh.Key(q.Data) == key {
-				p = ms.Take(i)
-				break
+		for deadline := time.Now().Add(10 * time.Second); p == nil && time.Now().Before(deadline); {
+			if p = ms.TakeByKey(key); p == nil {
+				time.Sleep(20 * time.Microsecond)
 			}
 		}
 		for p != nil && crossings < 64 {
@@ -733,14 +733,7 @@ func meshTraversalLive(res *core.Result, r *rand.Rand, t *vmesh.Topology, labels
 	}
 }
 
-func parallel(n int, fn func(w int)) {
-	var wg sync.WaitGroup
-	for w := 0; w < n; w++ {
-		wg.Add(1)
-		go func(w int) { defer wg.Done(); fn(w) }(w)
-	}
-	wg.Wait()
-}
+func parallel(n int, fn func(w int)) { core.Parallel(n, fn) }
 
 var reps6 = []m.SwitchLabel{1, 127, 128, 16383, 16384, 65535}
 var reps3 = []m.SwitchLabel{1, 128, 16384}
